@@ -268,6 +268,14 @@ void join_case(i64 k_, i64 f_)
       chk(code(r) == mj, KEY(k, "optional::join|result"), [&] { return std::string(cat_name(RV)) + " join(#" + std::to_string(k) + ") = " + oname(code(r)) + ", expected " + oname(mj) + " (0 nothing, 1 optional{nothing}, 2+d optional{optional{d}})"; });
       OD const b = fcppt::optional::bind(pass<RV>(src2), [](OD x) { return x; });
       chk(code(b) == mj, KEY(k, "optional::join|equals-bind-identity"), [&] { return "bind(#" + std::to_string(k) + ", id) = " + oname(code(b)) + ", expected " + oname(mj); });
+      if constexpr (!RV)
+      {
+        // a NON-CONST lvalue argument is the same value after the call
+        OOD lv = mkoo(k);
+        OD const r2 = fcppt::optional::join(lv);
+        chk(code(r2) == mj, KEY(k, "optional::join|result|non-const-lvalue"), [&] { return "lvalue join(#" + std::to_string(k) + ") = " + oname(code(r2)); });
+        chk(lv == mkoo(k), KEY(k, "optional::join|non-const-lvalue-argument|modified"), [&] { return "join(#" + std::to_string(k) + ") changed its non-const lvalue argument"; });
+      }
     }
     if (k < 4)
     {
